@@ -129,7 +129,7 @@ CHECKS = {
                     quick=dict(shards=3, checks=120, timeout=300),
                     thorough=dict(shards=12, checks=2000, timeout=1800))],
         rule='cases = generated table histories in which, at every decision point (group requests, turns, after settlement, paused), 0-3 intruder attempts are drawn from a 5x9 actor/action matrix (current player with a disallowed kind, other participant, folded/all-in participant, seated non-participant, stranger) x (fold check call bet raise allin pass ready pay); oracle: an attempt the hand does not allow returns an error and table JSON, hand-state JSON, successful backend calls and emitted events are identical before and after; every accepted driver action is applied exactly once and announced once with player, seat, action, round, hand; concurrent part (c10b): at drawn turns every player at the table and strangers submit an action at the same instant - accepted submissions = announced actions, each successful backend call belongs to the entry whose turn it then was, the hand still settles with chips conserved and equal to the pure replay; non-trivial = a case with >=1 refused attempt by a dealt-in player out of turn and >=1 by a non-participant; distinct = distinct abstract traces',
-        mandatory=dict(quick=['inhand_leave_below_participant', 'inhand_leave', 'table_stopped_mid_hand_PauseTable', 'table_stopped_mid_hand_CloseTable', 'cell:current/pass', 'cell:participant/fold', 'cell:inactive/check', 'cell:nonparticipant/call', 'cell:stranger/bet', 'attempt_group_request', 'attempt_after_settle', 'attempt_when_paused']),
+        mandatory=dict(quick=['accepted_pay_announced', 'ante_and_blind_paid_by_one_player', 'inhand_leave_below_participant', 'inhand_leave', 'table_stopped_mid_hand_PauseTable', 'table_stopped_mid_hand_CloseTable', 'cell:current/pass', 'cell:participant/fold', 'cell:inactive/check', 'cell:nonparticipant/call', 'cell:stranger/bet', 'attempt_group_request', 'attempt_after_settle', 'attempt_when_paused']),
         assumptions=ASSUME_COMMON,
     ),
     "C11": dict(
